@@ -680,7 +680,7 @@ class Normaliser:
                 if isinstance(node, ast.Assign) and len(node.targets) == 1 and isinstance(node.targets[0], ast.Name) and isinstance(node.value, ast.Call):
                     fn = node.value.func
                     nm = fn.id if isinstance(fn, ast.Name) else fn.attr if isinstance(fn, ast.Attribute) else ''
-                    if nm == 'namedtuple' and len(node.value.args) >= 2:
+                    if nm.lstrip('_') == 'namedtuple' and len(node.value.args) >= 2:
                         flds = node.value.args[1]
                         names = None
                         if isinstance(flds, (ast.List, ast.Tuple)) and all(isinstance(e, ast.Constant) and isinstance(e.value, str) for e in flds.elts):
@@ -1153,6 +1153,17 @@ class Normaliser:
                     argnames |= {n.id for n in ast.walk(v) if isinstance(n, ast.Name)}
                 if inner & (set(subst) | argnames):
                     return node
+                # an argument that is not a pure expression is evaluated exactly once, where the call stood: it may replace its
+                # parameter only if the returned expression uses that parameter exactly once, unconditionally, and no other
+                # argument is impure as well (otherwise the statement-level expansion binds it to a temporary)
+                impure = [p_ for p_, v in subst.items() if not (isinstance(v, (ast.Name, ast.Constant)) or is_pure(v))]
+                if len(impure) > 1:
+                    return node
+                for p_ in impure:
+                    uses = [n for n in ast.walk(expr) if isinstance(n, ast.Name) and n.id == p_]
+                    cond = any(isinstance(n, (ast.IfExp, ast.BoolOp) + COMPS + (ast.Lambda,)) and any(u is m for m in ast.walk(n) for u in uses) for n in ast.walk(expr))
+                    if len(uses) != 1 or cond:
+                        return node
                 new = _Rename({}, subst).visit(copy.deepcopy(expr))
                 new = _canon_polarity(_prune_constant_tests([ast.Expr(value=new)]))[0].value
                 if helper.path != fctx['path']:
@@ -2318,22 +2329,41 @@ class Normaliser:
         for n in ast.walk(func):
             for c in ast.iter_child_nodes(n):
                 parent[id(c)] = n
+        ntypes = getattr(self, 'ntypes', {}) or {}
+        nt_of = {}          # local -> named tuple class it is built with
+
+        def as_tuple(v):
+            """(elements, class name | None) when v is a tuple written out in place or a named tuple constructor call"""
+            if isinstance(v, ast.Tuple) and not any(isinstance(e, ast.Starred) for e in v.elts):
+                return list(v.elts), None
+            if isinstance(v, ast.Call) and not any(isinstance(a, ast.Starred) for a in v.args) and all(k.arg for k in v.keywords):
+                fn = v.func
+                nm = fn.id if isinstance(fn, ast.Name) else fn.attr if isinstance(fn, ast.Attribute) else None
+                flds = ntypes.get(nm)
+                if flds:
+                    kw = {k.arg: k.value for k in v.keywords}
+                    if len(v.args) + len(kw) == len(flds) and set(kw) == set(flds[len(v.args):]):
+                        return list(v.args) + [kw[f_] for f_ in flds[len(v.args):]], nm
+            return None
         for n in ast.walk(func):
             if isinstance(n, ast.Name):
                 if n.id in known or n.id in params:
                     continue
                 par = parent.get(id(n))
                 if isinstance(n.ctx, ast.Store):
-                    if isinstance(par, ast.Assign) and len(par.targets) == 1 and par.targets[0] is n and isinstance(par.value, ast.Tuple) \
-                            and not any(isinstance(e, ast.Starred) for e in par.value.elts) \
-                            and not any(isinstance(m, ast.Name) and m.id == n.id for m in ast.walk(par.value)):
+                    tp = as_tuple(par.value) if (isinstance(par, ast.Assign) and len(par.targets) == 1 and par.targets[0] is n) else None
+                    if tp is not None and not any(isinstance(m, ast.Name) and m.id == n.id for m in ast.walk(par.value)) and nt_of.setdefault(n.id, tp[1]) == tp[1]:
+                        par._kv_elts = tp[0]
                         binds.setdefault(n.id, []).append(par)
                     else:
                         other.add(n.id)
                 elif isinstance(n.ctx, ast.Load):
+                    flds = ntypes.get(nt_of.get(n.id)) if nt_of.get(n.id) else None
                     if isinstance(par, ast.Subscript) and par.value is n and isinstance(par.ctx, ast.Load) and isinstance(par.slice, ast.Constant) and isinstance(par.slice.value, int) \
                             and not isinstance(par.slice.value, bool):
                         loads.setdefault(n.id, []).append(par)
+                    elif isinstance(par, ast.Attribute) and par.value is n and isinstance(par.ctx, ast.Load):
+                        loads.setdefault(n.id, []).append(par)      # v.field: resolved against the named tuple class below
                     else:
                         other.add(n.id)
                 else:
@@ -2346,15 +2376,21 @@ class Normaliser:
         for v, bl in binds.items():
             if v in other or v not in loads:
                 continue
-            ks = {len(b.value.elts) for b in bl}
+            ks = {len(b._kv_elts) for b in bl}
             if len(ks) != 1:
                 continue
             k = ks.pop()
-            if not all(0 <= sub.slice.value < k for sub in loads[v]):
+            flds = ntypes.get(nt_of.get(v)) if nt_of.get(v) else None
+
+            def pos(sub):
+                if isinstance(sub, ast.Subscript):
+                    return sub.slice.value if 0 <= sub.slice.value < k else None
+                return flds.index(sub.attr) if (flds and sub.attr in flds) else None
+            if any(pos(sub) is None for sub in loads[v]):
                 continue
             for sub in loads[v]:
                 holder = parent.get(id(sub))
-                new = ast.copy_location(ast.Name(id=f'{v}__{sub.slice.value}', ctx=ast.Load()), sub)
+                new = ast.copy_location(ast.Name(id=f'{v}__{pos(sub)}', ctx=ast.Load()), sub)
                 for fld, val in ast.iter_fields(holder):
                     if val is sub:
                         setattr(holder, fld, new)
@@ -2363,7 +2399,7 @@ class Normaliser:
                             if x is sub:
                                 val[i] = new
             for b in bl:
-                reps = [ast.copy_location(ast.Assign(targets=[ast.Name(id=f'{v}__{i}', ctx=ast.Store())], value=e, lineno=b.lineno), b) for i, e in enumerate(b.value.elts)]
+                reps = [ast.copy_location(ast.Assign(targets=[ast.Name(id=f'{v}__{i}', ctx=ast.Store())], value=e, lineno=b.lineno), b) for i, e in enumerate(b._kv_elts)]
                 for blk in self._blocks(func):
                     if any(x is b for x in blk):
                         i = [j for j, x in enumerate(blk) if x is b][0]
